@@ -265,7 +265,12 @@ def adaptStep (acc : List String × St) (adr : String) : List String × St :=
     if gb.onDev != "" then (res ++ [gb.onDev], st)
     else
       let (name, st) := findGroupOnDevice st gbi
-      if name != "" then (res ++ [name], st) else (res ++ [gb.newName], st)
+      if name != "" then (res ++ [name], st)
+      else
+        -- the group will be transferred under this name; it must not be mapped to a device
+        -- group later (repair 5th commit of this property, see docs/C03.md F-C03f)
+        (res ++ [gb.newName],
+          { st with bGrp := modAt st.bGrp gbi (fun g => { g with onDev := gb.newName }) })
 
 def adaptGroups (st : St) (lb : List String) : List String × St := lb.foldl adaptStep ([], st)
 
